@@ -14,7 +14,8 @@ queries through TigaPropertyBuilder), tiga (TigaPropertyBuilder over a parsed co
 Every input is one call of a public parsing entry point of the real library (harness/c01.cpp, ASan + UBSan +
 _GLIBCXX_ASSERTIONS build), in its own forked child, under a CPU-time budget proportional to the input length.
 PASS = the call returns or throws something derived from std::exception.  FAIL = sanitizer report, signal, abort,
-non-std exception, or time out of proportion (budget exceeded again when re-run alone with 5x the budget).
+non-std exception, time out of proportion (budget exceeded again when re-run alone with 5x the budget), or memory out of
+proportion (an input of at most 4 KB whose child is stopped by the harness's cap on the resident set, 2 GB + 4 KB per byte).
 Each distinct failure is keyed by the top libutap frame of the sanitizer report (never by seed or counter) and
 reported through ctx.finding(key, what, replay_obj).
 
@@ -26,6 +27,7 @@ Families (counts per family are in the coverage dict):
   trunc    (c) truncation at every byte of small models / snippets, every prefix of every query
   noise    (d) random byte flips / inserts / deletes, purely random bytes
   deep     (e) long chains / deep nesting, n = 10^2 .. 10^5 (thorough 10^6), with n/2n/4n growth measurement
+               (the XML documents with nested general entities: n = 6, 12, 24, 30 levels, 27 bytes each)
 `import` declarations are kept out of the stream (dynamic_load_lib would dlopen arbitrary files).
 Deterministic for a given ctx.seed: enumerations are sorted, sub-sampling uses strides and random.Random(seed).
 """
@@ -47,6 +49,7 @@ from vlib import core
 
 CORPUS = os.path.join(core.VERIF, "corpus", "c01")
 SCRATCH_ROOT = os.environ.get("C01_SCRATCH", "/var/tmp/agent-c01/partB")
+SMALL_INPUT = 4096         # bytes: an input up to this size that runs into the memory cap of the harness (2 GB + 4 KB/byte) is a finding
 CPU_BASE_MS = 1000          # CPU budget of one call: 1 s + 20 us per input byte (ASan build), x5 on the re-run
 CPU_US_PER_BYTE = 20
 RERUN_MULT = 5
@@ -100,6 +103,8 @@ class Job:
              "input_b64": base64.b64encode(self.input).decode(), "family": self.family, "observed": observed}
         if self.ctx:
             o["ctx_b64"] = base64.b64encode(self.ctx).decode()
+        if self.tag:
+            o["tag"] = self.tag
         try:
             t = self.input.decode("utf-8")
             if len(t) <= 4000 and all(ch == "\n" or ch == "\t" or 32 <= ord(ch) < 127 for ch in t):
@@ -121,7 +126,7 @@ def job_from_replay(o):
     if entry == "xta" and part not in ("-", "S_XTA"):
         entry = "part"
     ctx = base64.b64decode(o["ctx_b64"]) if o.get("ctx_b64") else o.get("ctx_text", "").encode()
-    return Job(o.get("family", "replay"), entry, o.get("newxta", True), o.get("builder", "doc"), part, ctx, inp)
+    return Job(o.get("family", "replay"), entry, o.get("newxta", True), o.get("builder", "doc"), part, ctx, inp, tag=o.get("tag", ""))
 
 
 class Res:
@@ -322,9 +327,12 @@ class Crash:
         self.kind, self.san, self.frames, self.top, self.report = kind, san, frames, top, report
 
     prefix = ""
+    site = None      # what the key names instead of the top libutap frame (see triage)
 
     @property
     def key(self):
+        if self.site:
+            return self.prefix + "%s:%s" % (self.kind, self.site)
         return self.prefix + "%s:%s" % (self.kind, short_name(self.top[0]) if self.top else "no-utap-frame:" + self.san.split(" ")[0])
 
 
@@ -378,6 +386,15 @@ def triage_hang(runner, res, job):
 
 def triage(runner, res, job):
     """Res of a failed job -> Crash (kind, sanitizer kind, symbolised frames, top libutap frame)."""
+    cr = _triage(runner, res, job)
+    if job.family == "deep" and "entity_nest" in job.tag and cr.kind in ("hang", "memory"):
+        # the time / memory of these documents goes into libxml2, below XMLReader::read whatever the cause: the top libutap frame says
+        # nothing, the family (where the entity is referenced from) does
+        cr.site = "deep:" + job.tag.split(":")[0]
+    return cr
+
+
+def _triage(runner, res, job):
     if res.outcome.startswith("timeout"):
         return triage_hang(runner, res, job)
     if res.outcome == "nonstd-exception":
@@ -397,6 +414,18 @@ def triage(runner, res, job):
         san = "std::terminate (" + san + ")"
     if not san:
         san = res.outcome
+    mm = re.search(r"==C01-MEMORY-LIMIT== rss_mb=(\d+) cap_mb=(\d+)", rep)
+    if mm:
+        # stopped by the harness's cap on the resident set.  An input of a few hundred bytes that needs gigabytes is the finding (memory
+        # out of proportion to the input, keyed by the libutap frame that was active); for larger inputs the cap only protects the machine
+        if len(job.input) + len(job.ctx) > SMALL_INPUT:
+            return Crash("oom", "resident set above the cap", [], None, rep)
+        fr = sym_frames(runner, rep.split("==C01-MEMORY-LIMIT==")[1])
+        ut = [(fn, loc) for _, fn, loc in fr if is_utap_frame(fn, loc) and not ACCESSOR.search(short_name(fn))]
+        text = ["resident set %s MB > cap %s MB (2 GB + 4 KB per input byte) for an input of %d bytes" % (mm.group(1), mm.group(2), len(job.input) + len(job.ctx))]
+        text += ["    #%d %s %s" % t for t in fr[:14]]
+        return Crash("memory", "resident set %s MB for %d bytes of input" % (mm.group(1), len(job.input) + len(job.ctx)), fr,
+                     ut[0] if ut else (job.entry_name(), ""), "\n".join(text))
     if re.search(r"rss limit|out of memory|allocation-size-too-big|failed to allocate|cannot allocate", rep, re.I) or "out-of-memory" in san:
         return Crash("oom", san, [], None, rep)
     if not rep.strip() and res.outcome in ("crash:signal:9", "crash:harness-lost"):
@@ -730,6 +759,23 @@ def _tmpl(name="T", locs='<location id="id0"/>', init='<init ref="id0"/>', trans
     return "<template><name>%s</name>%s%s%s</template>" % (name, locs, init, trans)
 
 
+def _xml_entities(n, where):
+    """a document whose internal DTD subset declares n general entities, each one twice the one before it (e0 is 10 characters,
+    eN would be 10 * 2^n characters if it were ever expanded), and ONE reference to the last of them in element content
+    (where = decl | label | system) or in an attribute value (where = attr).
+    The text of the document grows by 27 bytes per level; what the reader does with it must not grow faster than that."""
+    dtd = '<!DOCTYPE nta [\n<!ENTITY e0 "0123456789">\n' + "".join('<!ENTITY e%d "&e%d;&e%d;">\n' % (k, k - 1, k - 1) for k in range(1, n + 1)) + "]>\n"
+    ref = "&e%d;" % n
+    decl = "int v; clock x; chan c;" + (" // " + ref + "\n" if where == "decl" else "")
+    if where == "attr":      # in the value of an attribute the reader never asks for
+        return ('<?xml version="1.0" encoding="utf-8"?>\n' + dtd + "<nta><declaration>%s</declaration>%s<system>system T;</system></nta>"
+                % (decl, _tmpl(locs='<location id="id0" color="%s"/>' % ref)))
+    tmpl = _tmpl(trans='<transition><source ref="id0"/><target ref="id0"/><label kind="guard">v >= 0 // %s</label></transition>' % ref
+                 if where == "label" else "")
+    system = "system T;" + (" // " + ref if where == "system" else "")
+    return ('<?xml version="1.0" encoding="utf-8"?>\n' + dtd + "<nta><declaration>%s</declaration>%s<system>%s</system></nta>" % (decl, tmpl, system))
+
+
 DEEP = {
     # name: (entry, part, builder, ctx, generator(n) -> text)
     "expr_left_plus": ("part", "S_EXPRESSION", "doc", CTX_DECL, lambda n: "1" + "+1" * n),
@@ -836,6 +882,13 @@ DEEP = {
     "xml_long_attr": ("xmlbuf", "-", "doc", "", lambda n: _xml(_tmpl(locs='<location id="%s"/>' % ("i" * n), init='<init ref="%s"/>' % ("i" * n)))),
     "xml_long_decl": ("xmlbuf", "-", "doc", "", lambda n: _xml("<declaration>int w0;" + " " * n + "</declaration>" + _tmpl())),
     "xml_entities": ("xmlbuf", "-", "doc", "", lambda n: _xml(_tmpl(locs='<location id="id0"><label kind="invariant">v' + "&lt;1&amp;&amp;v" * n + "&lt;1</label></location>"))),
+    # general entities declared in the document itself, nested n deep (each one names the one before it twice), referenced once from the
+    # text of a block: whether the reader skips the reference or substitutes it, time and memory stay proportional to the DOCUMENT
+    "xml_entity_nest_decl": ("xmlbuf", "-", "doc", "", lambda n: _xml_entities(n, "decl")),
+    "xml_entity_nest_label": ("xmlbuf", "-", "doc", "", lambda n: _xml_entities(n, "label")),
+    "xml_entity_nest_system": ("xmlbuf", "-", "pretty", "", lambda n: _xml_entities(n, "system")),
+    "xmlfile_entity_nest": ("xmlfile", "-", "doc", "", lambda n: _xml_entities(n, "decl")),
+    "xml_entity_nest_attr": ("xmlbuf", "-", "doc", "", lambda n: _xml_entities(n, "attr")),
     "xml_unclosed": ("xmlbuf", "-", "doc", "", lambda n: '<?xml version="1.0"?><nta>' + "<template><name>" * n),
     "xml_pretty_templates": ("xmlbuf", "-", "pretty", "", lambda n: _xml("".join(_tmpl("T%d" % k) for k in range(n + 1)), "system T0;")),
     "xmlfile_locations": ("xmlfile", "-", "doc", "", lambda n: _xml(_tmpl(locs="".join('<location id="id%d"/>' % k for k in range(n + 1))))),
@@ -848,6 +901,8 @@ def deep_triple(name, thorough):
     point where the CPU budget is reached (about 45 000 operands), so that the verdict never depends on machine load."""
     if name == "const_dag":
         return []              # its text is quadratic in n by construction: the fixed sizes of deep_sizes are the test
+    if "entity_nest" in name:
+        return [6]             # 6, 12, 24 levels: 24 levels are 10 * 2^24 characters if substituted -- seconds, not hours (see deep_sizes)
     unit = max(1.0, len(DEEP[name][4](200)) / 200.0)
     if DEEP[name][2] == "pretty":
         return [2500]
@@ -867,6 +922,11 @@ def deep_sizes(name, thorough):
     sizes = {100, 1000}
     if name == "const_dag":
         return [10, 20, 30, 40, 56, 80]      # the text grows quadratically; path counting would need 2^n steps
+    if "entity_nest" in name:
+        # documents of 0.3 .. 1 KB.  Substituting the reference doubles the work with every level: 24 levels are measurable within the
+        # budget, 30 levels (10 GB of text) cannot finish -- the child is then stopped by its CPU budget or by the harness's cap on the
+        # resident set (2 GB for inputs of this size), whichever comes first, so the machine is never at risk
+        return [6, 12, 24, 30]
     if name.startswith("call_nest"):
         sizes |= {10, 20, 30, 40, 60}      # beyond about 90 levels the parser gives up, so exponential checking shows only below that
     for n in deep_triple(name, thorough):
@@ -1221,6 +1281,8 @@ def _what(job, cr):
                 % (shape, cfg, CPU_BASE_MS, CPU_US_PER_BYTE, RERUN_MULT, short_name(cr.top[0]) if cr.top else "?", where))
     if cr.kind == "nonstd-exception":
         return "%s [%s] threw an object not derived from std::exception" % (shape, cfg)
+    if cr.kind == "memory":
+        return "%s [%s] needs memory out of proportion to the input: %s, in %s%s" % (shape, cfg, cr.san, short_name(cr.top[0]) if cr.top else "?", where)
     fn = short_name(cr.top[0]) if cr.top else "?"
     return "%s [%s]: %s in %s%s" % (shape, cfg, cr.san, fn, where)
 
